@@ -14,16 +14,13 @@
 package main
 
 import (
-	"bytes"
 	"crypto/sha256"
 	"fmt"
-	"io"
 	"os"
 	"regexp"
 	"sort"
 	"strings"
 	"sync"
-	"testing/iotest"
 
 	"filippo.io/age"
 	"filippo.io/age/zverif/mon"
@@ -44,6 +41,9 @@ func main() {
 		"leak search: 8 consecutive characters, case-sensitive and lower-cased; identity files: the part after the Bech32 separator of every " +
 			"identity line; recipients files: every non-empty line (SSH lines: everything after the type field, which the documented warning names)",
 		"CLI identity files are the line-oriented kind (native and plugin identities); PEM/SSH private key files are whole-file formats outside this property",
+		"library stage: every file is parsed through one reader kind/state of each group (plain shapes at offset 0; seekable readers positioned behind other text; " +
+			"os.Pipe; partly consumed bufio.Reader; readers with content beyond their end) and judged by the line model on the bytes from the reader's position to its end; " +
+			"age-keygen -y is driven with a standard input another process has already read from",
 		"comments are hexadecimal noise (plus age-keygen style '# public key:' lines in identity files)",
 	}
 	r.MinEvals, r.MinDistinct = 3000, 2000
@@ -53,6 +53,7 @@ func main() {
 		os.Exit(2)
 	}
 	libPart(r)
+	keygenPart(r)
 	cliPart(r)
 	r.Finish()
 }
@@ -130,6 +131,10 @@ func libPart(r *mon.Run) {
 	for i := 0; i < 12; i++ {
 		pool = append(pool, newX(fmt.Sprintf("c18-x%d", i)))
 	}
+	var others []*pkey // keys that occur only outside the file handed over
+	for i := 0; i < 6; i++ {
+		others = append(others, newX(fmt.Sprintf("c18-other%d", i)))
+	}
 	var cases []libCase
 	for _, fn := range []string{"ParseIdentities", "ParseRecipients"} {
 		for n := 0; n <= 6; n++ {
@@ -198,9 +203,10 @@ func libPart(r *mon.Run) {
 			name += fmt.Sprintf("/%s@%d", longVars[c.long].Name, c.at)
 		}
 		viol := func(key, what string, replay any) { col.add(i, key, what, replay) }
-		r.Guard(name, func() { runLib(r, pool, c, name, viol) })
+		r.Guard(name, func() { runLib(r, pool, others, i, c, name, viol) })
 	})
 	col.flush(r)
+	srcGuard(r, int64(r.Pick(40, 200)))
 }
 
 var (
@@ -217,19 +223,7 @@ func errClass(msg string) string {
 	return s
 }
 
-func reader(rngChoice int, data []byte) io.Reader {
-	switch rngChoice {
-	case 0:
-		return bytes.NewReader(data)
-	case 1:
-		return iotest.OneByteReader(bytes.NewReader(data))
-	case 2:
-		return iotest.DataErrReader(bytes.NewReader(data))
-	}
-	return iotest.HalfReader(bytes.NewReader(data))
-}
-
-func runLib(r *mon.Run, pool []*pkey, c libCase, name string, violate func(key, what string, replay any)) {
+func runLib(r *mon.Run, pool, others []*pkey, idx int, c libCase, name string, violate func(key, what string, replay any)) {
 	rng := mon.NewRNG(r.Seed, name)
 	id := c.fn == "ParseIdentities"
 	ks := pick(rng, pool, c.n, rng.Intn(8) == 0)
@@ -287,42 +281,22 @@ func runLib(r *mon.Run, pool []*pkey, c libCase, name string, violate func(key, 
 		}
 	}
 
-	rd := rng.Intn(4)
-	var got []string // canonical spelling of what was returned
-	var typeErr string
-	var err error
-	if id {
-		var ids []age.Identity
-		ids, err = age.ParseIdentities(reader(rd, data))
-		for _, i := range ids {
-			x, ok := i.(*age.X25519Identity)
-			if !ok {
-				typeErr = fmt.Sprintf("%T", i)
-				continue
-			}
-			got = append(got, x.String()+" "+x.Recipient().String())
-		}
-	} else {
-		var recs []age.Recipient
-		recs, err = age.ParseRecipients(reader(rd, data))
-		for _, rc := range recs {
-			x, ok := rc.(*age.X25519Recipient)
-			if !ok {
-				typeErr = fmt.Sprintf("%T", rc)
-				continue
-			}
-			got = append(got, x.String())
+	// expected keys, in the canonical spelling used for the returned ones
+	var want []string
+	for _, k := range v.Keys {
+		if id {
+			_, sec, _ := refage.Bech32Decode(k.Text)
+			want = append(want, k.Text+" "+refage.Bech32Encode("age", refage.X25519Public(sec)))
+		} else {
+			want = append(want, k.Text)
 		}
 	}
-	r.Eval(1)
 	h := sha256.Sum256(data)
-	r.Distinct(fmt.Sprintf("%s:%x", c.fn, h))
 	r.Count("lib_files", 1)
 	r.Tab("lib_keys_in_file", fmt.Sprint(len(v.Keys)))
 	r.Tab("lib_eol", c.eol)
 	r.Tab("lib_final_newline", fmt.Sprint(c.finalNL))
 	r.Tab("lib_style", c.style)
-	r.Tab("lib_reader", []string{"whole", "one-byte", "data+EOF", "half"}[rd])
 	if c.long >= 0 {
 		what := "valid keys only"
 		if c.pos >= 0 {
@@ -341,72 +315,144 @@ func runLib(r *mon.Run, pool []*pkey, c libCase, name string, violate func(key, 
 		}
 	}
 
-	// expected keys, in the same canonical spelling
-	var want []string
-	for _, k := range v.Keys {
-		if id {
-			_, sec, _ := refage.Bech32Decode(k.Text)
-			want = append(want, k.Text+" "+refage.Bech32Encode("age", refage.X25519Public(sec)))
-		} else {
-			want = append(want, k.Text)
-		}
-	}
-	replay := map[string]any{"function": c.fn, "file": string(data), "reader": rd, "case": name}
-	pre := "lib:" + c.fn + ":"
-	where := fmt.Sprintf("%s on %s (%s)", c.fn, showFile(data), f.describe())
+	// text that is not part of the file: before the reader's position, beyond its end
+	variant := rng.Intn(4)
+	before, protBefore := foreign(rng, variant, id, others)
+	after, protAfter := foreign(rng, variant+1+rng.Intn(3), id, others)
+	protected = append(append(protected, protBefore...), protAfter...)
 
-	if err != nil {
-		msg := err.Error()
-		r.Tab("lib_error_class", c.fn+": "+errClass(msg))
-		if len(got) > 0 {
-			violate(pre+"keys-returned-with-error", fmt.Sprintf("%s returned %d keys together with the error %q", where, len(got), msg), replay)
+	// the file through one reader kind/state of every group; a defect that shows
+	// with a plain reader at offset 0 is reported once, under the plain key
+	plainFailed := false
+	for _, sk := range srcPlan(idx) {
+		src, cleanup, serr := openSrc(sk.Name, data, before, after)
+		if serr != nil {
+			r.Inconclusive("harness: cannot set up reader %q: %v", sk.Name, serr)
+			continue
 		}
-		if w, bad := leak(msg, protected); bad {
-			src := "other-line"
-			if c.pos >= 0 && (strings.Contains(strings.ToLower(kl[c.pos].Text), strings.ToLower(w))) {
-				src = "offending-line"
+		var got []string // canonical spelling of what was returned
+		var typeErr string
+		var err error
+		if id {
+			var ids []age.Identity
+			ids, err = age.ParseIdentities(src)
+			for _, i := range ids {
+				x, ok := i.(*age.X25519Identity)
+				if !ok {
+					typeErr = fmt.Sprintf("%T", i)
+					continue
+				}
+				got = append(got, x.String()+" "+x.Recipient().String())
 			}
-			violate(pre+"leak:"+src, fmt.Sprintf("%s: error %q reproduces %q of a protected line", where, msg, w), replay)
+		} else {
+			var recs []age.Recipient
+			recs, err = age.ParseRecipients(src)
+			for _, rc := range recs {
+				x, ok := rc.(*age.X25519Recipient)
+				if !ok {
+					typeErr = fmt.Sprintf("%T", rc)
+					continue
+				}
+				got = append(got, x.String())
+			}
 		}
-		r.Count("lib_error_strings_searched", 1)
-	}
-	switch {
-	case len(v.BadLines) > 0:
-		if err == nil {
-			violate(pre+"invalid-line-accepted:"+c.kind, fmt.Sprintf("%s succeeded with %d keys although line %d (%q) is not a valid key", where, len(got), v.BadLines[0], v.Lines[v.BadLines[0]-1].Text), replay)
-			return
+		cleanup()
+		r.Eval(1)
+		r.Distinct(fmt.Sprintf("%s:%x:%s", c.fn, h, sk.Name))
+		r.Tab("lib_reader", sk.Group+": "+sk.Name)
+		if sk.Group != "a" && sk.Group != "c" {
+			r.Tab("lib_text_outside_the_file", sk.Name+": "+foreignNames[variant])
 		}
-		r.Tab("lib_outcome", "rejected: invalid line")
-		named := false
-		for _, n := range v.BadLines {
-			named = named || namesNumber(err.Error(), n)
+		if len(v.BadLines) > 0 || len(v.Keys) == 0 {
+			r.Count("lib_src_invalid:"+sk.Name, 1)
+		} else {
+			r.Count("lib_src_valid:"+sk.Name, 1)
 		}
-		if !named {
-			violate(pre+"line-number", fmt.Sprintf("%s: error %q does not name the offending line %v", where, err.Error(), v.BadLines), replay)
+
+		pre := "lib:" + c.fn + ":"
+		where := fmt.Sprintf("%s on %s (%s)", c.fn, showFile(data), f.describe())
+		replay := map[string]any{"function": c.fn, "file": string(data), "reader": sk.Name, "case": name}
+		if sk.Group != "a" {
+			if plainFailed {
+				continue
+			}
+			pre += "reader=" + sk.Name + ":"
+			where = fmt.Sprintf("%s handed a %s reader whose remaining content is %s (%s)", c.fn, sk.Name, showFile(data), f.describe())
+			switch sk.Group {
+			case "b", "d":
+				where += fmt.Sprintf("; before its position: %q", mon.Trunc([]byte(before), 300))
+				replay["before_position"] = before
+			case "e":
+				where += fmt.Sprintf("; beyond its end: %q", mon.Trunc([]byte(after), 300))
+				replay["beyond_end"] = after
+				if sk.Name != "LimitedReader+tail" {
+					where += fmt.Sprintf("; before its position: %q", mon.Trunc([]byte(before), 300))
+					replay["before_position"] = before
+				}
+			}
 		}
-		r.SampleN("lib-bad-"+c.fn+sampleClass(c.long), 2, map[string]any{"function": c.fn, "file": sampleFile(data), "offending_line": v.BadLines[0], "kind": c.kind, "error": err.Error()})
-	case len(v.Keys) == 0:
-		if err == nil {
-			violate(pre+"no-key-accepted", fmt.Sprintf("%s succeeded (%d keys) on a file without any key", where, len(got)), replay)
-			return
+		failed := false
+		viol := func(key, what string) {
+			failed = true
+			violate(pre+key, what, replay)
 		}
-		r.Tab("lib_outcome", "rejected: no key")
-		r.SampleN("lib-nokey-"+c.fn, 1, map[string]any{"function": c.fn, "file": sampleFile(data), "error": err.Error()})
-	default:
+
 		if err != nil {
-			violate(pre+"valid-file-rejected", fmt.Sprintf("%s failed with %q although every line is valid", where, err.Error()), replay)
-			return
+			msg := err.Error()
+			r.Tab("lib_error_class", c.fn+": "+errClass(msg))
+			if len(got) > 0 {
+				viol("keys-returned-with-error", fmt.Sprintf("%s returned %d keys together with the error %q", where, len(got), msg))
+			}
+			if w, bad := leak(msg, protected); bad {
+				src := "other-line"
+				if c.pos >= 0 && (strings.Contains(strings.ToLower(kl[c.pos].Text), strings.ToLower(w))) {
+					src = "offending-line"
+				}
+				viol("leak:"+src, fmt.Sprintf("%s: error %q reproduces %q of a protected line", where, msg, w))
+			}
+			r.Count("lib_error_strings_searched", 1)
 		}
-		r.Tab("lib_outcome", "accepted")
-		if typeErr != "" {
-			violate(pre+"value-type", fmt.Sprintf("%s returned a value of type %s", where, typeErr), replay)
-			return
+		switch {
+		case len(v.BadLines) > 0:
+			if err == nil {
+				viol("invalid-line-accepted:"+c.kind, fmt.Sprintf("%s succeeded with %d keys although line %d (%q) is not a valid key", where, len(got), v.BadLines[0], v.Lines[v.BadLines[0]-1].Text))
+				break
+			}
+			r.Tab("lib_outcome", "rejected: invalid line")
+			named := false
+			for _, n := range v.BadLines {
+				named = named || namesNumber(err.Error(), n)
+			}
+			if !named {
+				viol("line-number", fmt.Sprintf("%s: error %q does not name the offending line %v", where, err.Error(), v.BadLines))
+			}
+			r.SampleN("lib-bad-"+c.fn+sampleClass(c.long)+sk.Group, 1, map[string]any{"function": c.fn, "reader": sk.Name, "file": sampleFile(data), "offending_line": v.BadLines[0], "kind": c.kind, "error": err.Error()})
+		case len(v.Keys) == 0:
+			if err == nil {
+				viol("no-key-accepted", fmt.Sprintf("%s succeeded (%d keys) on a file without any key", where, len(got)))
+				break
+			}
+			r.Tab("lib_outcome", "rejected: no key")
+			r.SampleN("lib-nokey-"+c.fn, 1, map[string]any{"function": c.fn, "file": sampleFile(data), "error": err.Error()})
+		default:
+			if err != nil {
+				viol("valid-file-rejected", fmt.Sprintf("%s failed with %q although every line is valid", where, err.Error()))
+				break
+			}
+			r.Tab("lib_outcome", "accepted")
+			if typeErr != "" {
+				viol("value-type", fmt.Sprintf("%s returned a value of type %s", where, typeErr))
+				break
+			}
+			if d := diffKeys(got, want); d != "" {
+				viol("keys-differ:"+d, fmt.Sprintf("%s returned %v, model %v", where, got, want))
+				break
+			}
+			r.SampleN("lib-ok-"+c.fn+sampleClass(c.long)+sk.Group, 1, map[string]any{"function": c.fn, "reader": sk.Name, "file": sampleFile(data), "keys_returned": len(got), "result": "equal to the model's list"})
 		}
-		if d := diffKeys(got, want); d != "" {
-			violate(pre+"keys-differ:"+d, fmt.Sprintf("%s returned %v, model %v", where, got, want), replay)
-			return
+		if sk.Group == "a" && failed {
+			plainFailed = true
 		}
-		r.SampleN("lib-ok-"+c.fn+sampleClass(c.long), 1, map[string]any{"function": c.fn, "file": sampleFile(data), "keys_returned": len(got), "result": "equal to the model's list"})
 	}
 }
 
